@@ -1,10 +1,12 @@
 (* Extraction of the hand-written executable model (T-cor) and of the generated leaves it calls. ExtrOcamlBasic only. *)
 From Coq Require Import ZArith List Extraction ExtrOcamlBasic.
-From C02 Require Import BTreeModel.
+From C02 Require Import BTreeModel NodeScript.
 Extraction Blacklist List String Nat.
 Separate Extraction
   BTreeModel.empty_tree BTreeModel.insert BTreeModel.add BTreeModel.remove BTreeModel.clear
   BTreeModel.lower_bound BTreeModel.upper_bound BTreeModel.find BTreeModel.contains BTreeModel.key_count
   BTreeModel.iter_index BTreeModel.nth_iter BTreeModel.contents BTreeModel.end_iter
   BTreeModel.copy_tree BTreeModel.reset_key BTreeModel.remove_key BTreeModel.remove_if
-  BTreeModel.merge_to BTreeModel.insert_range BTreeModel.remove_range BTreeModel.remove_key_multi BTreeModel.shape_of BTreeModel.traverse_fwd BTreeModel.traverse_bwd BTreeModel.cnt.
+  BTreeModel.merge_to BTreeModel.insert_range BTreeModel.remove_range BTreeModel.remove_key_multi BTreeModel.shape_of BTreeModel.traverse_fwd BTreeModel.traverse_bwd BTreeModel.cnt
+  NodeScript.ns_create NodeScript.ns_accept NodeScript.ns_remove NodeScript.ns_table NodeScript.ns_live NodeScript.ns_slot
+  NodeScript.ns_capacity NodeScript.ns_is_leaf NodeScript.ns_hand_count NodeScript.ns_mpi NodeScript.ns_cnt NodeScript.ns_children.
